@@ -437,6 +437,9 @@ func mixProfile(profile string, g *gen) (mixW, bool) {
 		return mixW{write: 55, ingest: 5, excise: 2, flush: 7, compact: 5, scanInternal: 12, scan: 1, rangeKeys: g.r.IntN(2) == 0}, true
 	case "maint": // C14
 		return mixW{write: 40, ingest: 4, ingestExcise: 2, excise: 3, flush: 10, compact: 10, snap: 14, efos: 2, iter: 12, ratchet: 2, wait: 3, scan: 2, rangeKeys: g.r.IntN(2) == 0, longLived: true, iterOpsPerStep: 3}, true
+	case "iofault": // C43
+		return mixW{write: 50, ingest: 4, ingestExcise: 1, excise: 2, flush: 9, compact: 7, scan: 4, reopen: 2, iter: 8, snap: 3, wait: 3, crash: 1,
+			rangeKeys: g.r.IntN(2) == 0, iterOpsPerStep: 3}, true
 	case "files": // C39
 		return mixW{write: 45, ingest: 5, ingestExcise: 2, excise: 3, flush: 9, compact: 9, scan: 1, reopen: 5, crash: 2, iter: 16, snap: 4, efos: 2, wait: 2, rangeKeys: g.r.IntN(2) == 0, longLived: true, iterOpsPerStep: 2}, true
 	case "valsep": // C44
@@ -565,6 +568,7 @@ func (e *dbEngine) Generate(profile string, seed uint64, tier string) (*Plan, er
 		g.disabled["merge"] = true
 		g.disabled["singledel"] = true // likewise unsupported by ScanInternal
 	}
+	var faults []*simfs.Fault
 	nops := 40 + g.r.IntN(160)
 	if tier == "thorough" {
 		nops = 40 + g.r.IntN(400)
@@ -589,7 +593,23 @@ func (e *dbEngine) Generate(profile string, seed uint64, tier string) (*Plan, er
 				g.keyspace()
 			}
 		}
+		if profile == "iofault" {
+			// A write that failed without being applied is not known to the
+			// (offline) generator; SingleDelete's contract depends on the exact
+			// number of preceding sets, so it is left out here.
+			g.disabled["singledel"] = true
+		}
 		g.genMixed(nops, w)
+		if profile == "iofault" {
+			faults = g.genFaults()
+			// the faults stop; then a clean reopen, a full read, a crash that
+			// loses everything unsynced, and a full read again
+			g.add(DBOp{K: "clearfaults"})
+			g.add(DBOp{K: "reopen"})
+			g.add(DBOp{K: "scan"})
+			g.add(DBOp{K: "crashnow", Surv: g.survival()})
+			g.add(DBOp{K: "scan"})
+		}
 	}
 	atomics := false
 	switch profile {
@@ -625,6 +645,7 @@ func (e *dbEngine) Generate(profile string, seed uint64, tier string) (*Plan, er
 	p.Sched = genSched(&g.r, atomics)
 	p.Cfg = mustJSON(g.cfg)
 	p.Ops = mustJSON(g.ops)
+	p.Faults = faults
 	return p, nil
 }
 
